@@ -22,6 +22,8 @@ func checkC14(c *Ctx, r *Report) {
 	c14R4(c, r)
 	c14R5(c, r)
 	c14PoolSlice(c, r)
+	r.rule("C14.R5.canonical-fold", 1, "CanonicalName lower-cases exactly A-Z (patterns and question names meet in the same case)")
+	foldRangeRule(c, r, "C14.R5.canonical-fold", "CanonicalName", "patterns and question names containing the letter left out are not brought to the same case, and such queries go to the wrong handler")
 }
 
 func isHandlerInvoke(in ssa.Instruction) bool {
